@@ -44,14 +44,19 @@ def process_level(res, exe):
     cases = [("unknown-cli", good + ["--NoSuchOption", 1], None, True), ("malformed-cli", good + ["--alpha0", "abc"], None, True),
              ("malformed-int-cli", ["-s", "1e", "-N", 8, "-T", 0.125, "-G", 0], None, True),
              ("unknown-cfg", good, "NoSuchOption=1\n", True), ("malformed-cfg", good, "alpha0=abc\n", True),
-             ("missing-config", good, "MISSING", False), ("control-ok", good, "GridSize=16\n", None)]
+             ("missing-config", good, "MISSING", False), ("missing-config-named-default.cfg", good, "MISSING-DEFAULT", False),
+             ("malformed-cfg-under-cli", good, "GridSize=abc\n", True), ("control-ok", good, "GridSize=16\n", None)]
     for name, args, cfg, must_fail in cases:
         out = "o_%s.h5" % name
         a = list(args)
         base = list(pl.BASE)
         if cfg is not None:
             cpath = os.path.join(wd, name + ".cfg")
-            if cfg != "MISSING":
+            if cfg == "MISSING-DEFAULT":
+                cpath = "default.cfg"      # the name the program falls back to when no --config is given - here it IS given, and there is no such file
+                if os.path.exists(os.path.join(wd, cpath)):
+                    os.remove(os.path.join(wd, cpath))
+            elif cfg != "MISSING":
                 with open(cpath, "w") as f:
                     f.write(cfg)
             base = ["--config", cpath, "--cldev", "0"]
